@@ -7,5 +7,5 @@ CONSTANTS
   Defects = {}
 SPECIFICATION Spec
 INVARIANTS AtMostOneReply NoFallOut EndsProperly GaugeExact AttemptsBound
-PROPERTIES NoAttemptAfterReply
+PROPERTIES NoAttemptAfterReply RefinesAbs
 CHECK_DEADLOCK TRUE
